@@ -17,20 +17,30 @@ def policy_for(k: int, seams: bool = True) -> dict:
     return {"mode": "prob", "p": (0.01, 0.1, 0.4)[k % 3]} if k % 2 else {"mode": "points", "n": 1 + k % 5, "horizon": (200, 2000)[(k // 2) % 2]}
 
 
-def run(check_id: str, clause: str, case, jobs: t.Sequence[t.Sequence[t.Any]], job_fn: t.Callable[[t.Any], t.Any], seed: int, policy: dict) -> dict:
+def run(check_id: str, clause: str, case, jobs: t.Sequence[t.Sequence[t.Any]], job_fn: t.Callable[[t.Any], t.Any], seed: int, policy: dict,
+        baseline_after: bool = False) -> dict:
+    """baseline_after: compute the single-threaded reference values AFTER the threaded run, so that whatever the library sets up on
+    first use (lazily built tables) is first touched by the threads."""
     from checks import plan as P
 
+    if baseline_after:
+        tsim = simthreads.ThreadSim(random.Random(seed ^ 0x7A1), P.SRC_PREFIX(), policy)
+        try:
+            res = tsim.run([(lambda js=js: [job_fn(j) for j in js]) for js in jobs])
+        except simthreads.Wedged as e:
+            raise common.HarnessError(str(e))
     try:
         alone = [[job_fn(j) for j in js] for js in jobs]
     except Exception as e:  # noqa: BLE001 - fails even with nothing else running
         return {"viol": common.violation(check_id, clause, "sequential", type(e).__name__, common.innermost_repo_frame(e), "",
                                          f"a computation on well-formed input failed with nothing else running: {e!r}; jobs={str(jobs)[:300]}"),
                 "digest": "alone-failed", "key": None, "fired": {}, "probes": {"thread_cases": 1}, "vtime_ns": 0}
-    tsim = simthreads.ThreadSim(random.Random(seed ^ 0x7A1), P.SRC_PREFIX(), policy)
-    try:
-        res = tsim.run([(lambda js=js: [job_fn(j) for j in js]) for js in jobs])
-    except simthreads.Wedged as e:
-        raise common.HarnessError(str(e))
+    if not baseline_after:
+        tsim = simthreads.ThreadSim(random.Random(seed ^ 0x7A1), P.SRC_PREFIX(), policy)
+        try:
+            res = tsim.run([(lambda js=js: [job_fn(j) for j in js]) for js in jobs])
+        except simthreads.Wedged as e:
+            raise common.HarnessError(str(e))
     viol = None
     for ti, ((got, exc), want) in enumerate(zip(res, alone)):
         if exc is not None:
